@@ -41,7 +41,7 @@ func init() {
 			Opt:      vrt.Options{RandInt: chooseConnOpt(), Delay: c.P("delay", "0") == "1"},
 			Classify: deadlockIs("blocked-calls-return: a Read/Write/Accept/Close never returned after the fault"),
 			Main: func() {
-				r := newMuxRig(rigCfg{conns: 0, unit: 256})
+				r := newMuxRig(rigCfg{conns: 0, unit: 256, wlimit: c.PI("wlimit", 0)})
 				for i := 0; i < nconn; i++ {
 					if tls {
 						r.addTLSPair()
@@ -488,6 +488,7 @@ func init() {
 		}
 		jobs = append(jobs, vx.Job{Scenario: "mux.fault", Params: vx.P("fault", "reset1", "streams", "2", "frames", "1", "delay", "1"), Bound: b(2, 3), Weight: 9})
 		jobs = append(jobs, vx.Job{Scenario: "mux.fault", Params: vx.P("fault", "reset0", "frames", "1", "srvwrite", "1", "delay", "1"), Bound: b(2, 3), Weight: 9})
+		jobs = append(jobs, vx.Job{Scenario: "mux.fault", Params: vx.P("fault", "reset0", "frames", "2", "wlimit", "1", "srvwrite", "1", "delay", "1"), Bound: b(1, 2), Weight: 9})
 		jobs = append(jobs, vx.Job{Scenario: "mux.faultsend", Params: vx.P("conns", "2"), Bound: b(1, 2), Weight: 5})
 		jobs = append(jobs, vx.Job{Scenario: "mux.faultsend", Params: vx.P("conns", "3"), Bound: b(0, 1), Weight: 6})
 		for _, k := range []string{"0", "3", "5", "100", "274"} {
